@@ -31,6 +31,13 @@ def main():
     pid = sys.argv[1]
     from vlib import report
     mod = importlib.import_module(f"checks.{pid.lower()}")
+    if "--prebuild" in sys.argv:
+        # used by setup_cmd: generate + compile once, so later runs can reuse byte-identical inputs
+        from vlib.common import pin_env
+        pin_env()
+        if hasattr(mod, "prebuild"):
+            mod.prebuild(report.Ctx(pid, "quick"))
+        return 0
     return report.main(pid, mod.run, level=getattr(mod, "LEVEL", "proof"))
 
 
